@@ -70,7 +70,7 @@ def ops_alphabet(full=True):
     # sections
     O.append(('addtsec', b'mt', b'a'))
     O.append(('addtsec', b'mt', b'b'))
-    O.append(('addtsec', b'mt', b'c'))
+    O.append(('addtsec', b'mt', b'ab'))            # a title that has another one as its prefix
     O.append(('addtsec', b'i', b'a'))              # not a section
     O.append(('addtsec', b's', b'hello'))
     O.append(('addtsec', b'zz', b'a'))
